@@ -74,9 +74,11 @@ reg("C04", "./checks/core", "^TestC04", assumptions=A_CORE, fuzz=[("./checks/cor
 reg("C05", "./checks/core", "^TestC05", assumptions=A_CORE)
 reg("C06", "./checks/core", "^TestC06", assumptions=A_CORE[2:] + ["native actions never mutate nested values in place (actions are documented as side-effect free)"])
 reg("C07", None, None)
-CHECKS["C07"]["parts"] = ["C07core", "C07mcrew", "C07mdb"]
+CHECKS["C07"]["parts"] = ["C07core", "C07sio", "C07mcrew", "C07mdb"]
 reg("C07core", "./checks/core", "^TestC07", crash_is_violation=True, fuzz=[("./checks/core", "FuzzC07Total", 120)], assumptions=["a nil *State and Execution literals with nil Events are API misuse, not generated", "panics inside the third-party YAML parser on byte-level garbage are not searched for"])
 CHECKS["C07core"]["subchecks"] = ["total", "loaders"]
+reg("C07sio", "./checks/sio", "^TestC07", shards=(4, 16), crash_is_violation=True, assumptions=["sio: the harness calls Crew.ProcessMsg itself (the crew loop does nothing else with a message); generated machines emit nothing (Crew.ProcessMsg re-injects emissions without a limit, so a machine that answers its own answers goes round for ever by specification)"])
+CHECKS["C07sio"]["subchecks"] = ["sio"]
 reg("C07mcrew", "./cmd/mcrew", "^TestC07", overlay=OV_MCREW, shards=(4, 16), crash_is_violation=True, assumptions=["mcrew: process requests are decoded from JSON into OpProcess and executed with OpProcess.Do, as the TCP / WebSocket / stdin listeners do"])
 CHECKS["C07mcrew"]["subchecks"] = ["mcrew"]
 reg("C07mdb", "./cmd/mdb", "^TestC07", overlay=OV_MDB, shards=(4, 16), crash_is_violation=True, assumptions=["mdb: machines are installed the way mdb's 'set' commands install them; Host.Process is also called with explicit control settings"])
